@@ -7,6 +7,10 @@ SPEC = os.path.join(VERIF, 'spec', 'proxy')
 
 
 def run(ctx):
+    # unit part (rock): histories on the real Rock::SwapDir, rebuild by the real Rock::Rebuild, TLC-validated
+    import C17u
+    C17u.run_unit(ctx)
+    unit_cov = dict(ctx.cov)
     tree = squidctl.ensure_binary(ctx)
     scens, res = escen.tlc_scenarios(ctx, os.path.join(SPEC, 'RestartScen.tla'), os.path.join(SPEC, 'MC_RestartScen.cfg'), key=None)
     seqs = sorted({json.dumps(s['ops']) for s in scens})
@@ -33,11 +37,11 @@ def run(ctx):
         o = out[i]
         ctx.violation('after a clean restart (%s) a completed entry is not served from the cache as stored: ops=%s events=%s' % (o['kind'], o['ops'], json.dumps(o['ev'])[:700]),
                       {'kind': 'restart', 'class': {'store': o['kind']}, 'scenario': o})
-    ctx.cov['impl_distinct'] = len({json.dumps([o['kind'], o['ops'], o['sizes']], sort_keys=True) for o in out})
+    ctx.cov['impl_distinct'] = (unit_cov.get('impl_distinct', 0) if isinstance(unit_cov.get('impl_distinct', 0), int) else 0) + len({json.dumps([o['kind'], o['ops'], o['sizes']], sort_keys=True) for o in out})
     ctx.cov['hits_after_restart'] = sum(1 for o in out for e in o['ev'] if e['e'] == 'After' and not e['contacted'] and e['hv'] >= 0)
     ctx.cov['by_store'] = {k: sum(1 for o in out if o['kind'] == k) for k in kinds}
     for o in out[:2]:
         ctx.sample({'store': o['kind'], 'ops': o['ops'], 'sizes': o['sizes'], 'events': o['ev']})
-    ctx.cov['rule'] = ('histories = all words of length 4 over {store, overwrite, purge} x {a, b} (RestartScen.tla); sampled histories realised on a fresh squid with a rock / ufs / aufs cache_dir '
+    ctx.cov['rule'] = (str(unit_cov.get('rule', '')) + ' || E level: histories = all words of length 4 over {store, overwrite, purge} x {a, b} (RestartScen.tla); sampled histories realised on a fresh squid with a rock / ufs / aufs cache_dir '
                        '(objects larger than the memory-cache limit), SIGTERM, restart, rebuild awaited, every key requested again; TLC validates against Restart.tla (phase clean).')
     ctx.assumptions += ['cache_dir 24 MB for < 300 KB of objects: eviction is excluded by sizing', 'diskd is not exercised']
